@@ -40,7 +40,11 @@ namespace GeographicLib {
   using namespace std;
 
   GeodesicExact::GeodesicExact(real a, real f)
-    : maxit2_(maxit1_ + Math::digits() + 10)
+      // Bisection must resolve calp1 (or salp1) to full relative accuracy;
+      // for nearly equatorial geodesics it is as small as the smallest
+      // non-zero reduced latitude, 2^-56 deg: digits() halvings to get down to
+      // that size and digits() more for its own significant bits.
+    : maxit2_(maxit1_ + 2 * Math::digits() + 20)
       // Underflow guard.  We require
       //   tiny_ * epsilon() > 0
       //   tiny_ + epsilon() == epsilon()
